@@ -2,6 +2,7 @@
    one s-expression command per line in, one s-expression answer out. *)
 From Coq Require Import String Ascii List ZArith NArith Bool.
 From OL Require Import Sexp PyAst Unparse Config Namespace Lower Cli StrLit KSem Scope.
+From OL Require Parse.
 Import ListNotations.
 Open Scope string_scope.
 
@@ -29,6 +30,16 @@ Definition run_cmd (x : sexp) : sexp :=
       | _, _, _, None, _ => bad "decode-symtab"
       | _, _, _, _, None => bad "decode-block"
       | _, _, _, _, _ => bad "decode-config"
+      end
+  | L [A "core-check"; e] =>
+      match expr_of e with
+      | Some e' => match Parse.core_check e' with (a, b, c) => ok (L [sx_bool a; sx_bool b; sx_bool c]) end
+      | None => bad "decode-expr"
+      end
+  | L [A "parse-core"; L ts] =>
+      match mapM Parse.pt_of ts with
+      | Some ts' => match Parse.parse_core ts' with Some e => ok (sx_expr e) | None => L [A "none"] end
+      | None => bad "decode-tokens"
       end
   | L [A "scope-ok"; lt; st] =>
       match bool_of lt, symtab_of st with
